@@ -8,7 +8,35 @@ One test binary serves the five properties; ./check exports VERIF_PROP, the harn
 only that property's workload bias and oracles (the chosen mode is stored in the first tape entry so
 replays do not need the environment)."""
 
+import os, re
+
 _SF = "golang.org/x/sync/singleflight.Group."
+
+
+def _gen_dns_knobs(REPO, wd):
+    """dns_control.go copy in which the capacity of the asynchronous domain-routing update queue (a function-local
+    constant, 1024) is read from a harness hook, so that a run can make it small enough to fill with a handful of
+    entries ("a cache too large for the miss path to run is the classic blind spot"). If the constant is not found
+    in the working tree the file is left as it is (the knob then keeps its production value; noted in the evidence
+    by the probe dns.c10-update-queue-filled staying at zero)."""
+    srcp = os.path.join(REPO, "control", "dns_control.go")
+    src = open(srcp).read()
+    pat = re.compile(r"const bpfUpdateQueueSize = (\d+)\n")
+    if len(pat.findall(src)) != 1:
+        return {}
+    src = pat.sub(lambda m: "bpfUpdateQueueSize := verifDnsUpdateQueueSize(%s)\n" % m.group(1), src)
+    # tell the harness when sendBpfUpdateTask drops a task at the full queue (its `default:` branch)
+    i = src.find("func (c *DnsController) sendBpfUpdateTask(")
+    if i >= 0:
+        j = src.find("\nfunc ", i + 1)
+        body = src[i:j if j > 0 else len(src)]
+        body2, n = re.subn(r"(default:\s*\n(?:\s*//[^\n]*\n)*)(\s*)return false", r"\1\2verifDnsUpdateDropped()\n\2return false", body, count=1)
+        if n == 1:
+            src = src[:i] + body2 + src[i + len(body):]
+    dst = os.path.join(wd, "dns_control.knobs.go")
+    open(dst, "w").write(src)
+    return {srcp: dst}
+
 
 ENGINES = {
     "dns": {
@@ -36,6 +64,7 @@ ENGINES = {
         ],
         "harness": ["harness/control/dns_engine_test.go", "harness/control/dns_world_test.go", "harness/control/dns_rules_test.go",
                     "harness/control/dns_track_test.go", "harness/control/dns_oracle_test.go", "harness/control/dns_c08_test.go", "harness/control/dns_c10_test.go", "harness/control/dns_c07_test.go", "harness/control/dns_c18_test.go", "harness/control/dns_tcp_test.go"],
+        "generators": [_gen_dns_knobs],
         "keepgoing": False,
         "quick_secs": 40, "thorough_secs": 600,
         # reach probes; a run serves one property, so only the probes of the checked property can be hit:
